@@ -372,6 +372,29 @@ def to_node(nb):
     return nbformat.from_dict(copy.deepcopy(nb))
 
 
+def to_node_shared(nb):
+    """The same document as to_node(nb), represented with SHARED sub-objects: every non-empty dict / list that occurs
+    several times (the same warning output in two cells, the same metadata block) is one Python object referenced from
+    all its places - what a program gets that builds a notebook re-using an output or a cell object."""
+    from .canon import canon
+    node = to_node(nb)
+    memo = {}
+
+    def share(x):
+        if isinstance(x, dict):
+            for k in list(x):
+                x[k] = share(x[k])
+        elif isinstance(x, list):
+            for i in range(len(x)):
+                x[i] = share(x[i])
+        else:
+            return x
+        if not x:
+            return x
+        return memo.setdefault(canon(x), x)
+    return share(node)
+
+
 def fixture_notebooks(repo):
     """The repository's test notebooks as plain dicts in normal form (seed corpus)."""
     import nbformat
